@@ -101,6 +101,58 @@ def systematic(rng):
         for k in range(6):
             h.generic(abi, "fd_tell", 4 + k)
         out.append(("unique", h))
+        # directory descriptors obtained by path_open: the first fd_readdir opens the DIR stream; afterwards
+        # the descriptor (and every other one) must still denote what it denoted
+        DIRUSE = ["fd_fdstat_get", "fd_filestat_get", "fd_readdir", "fd_read", "fd_seek", "fd_tell", "fd_prestat_get",
+                  "fd_sync", "path_open", "path_filestat_get"]
+        FILEUSE = ["fd_read", "fd_tell", "fd_fdstat_get", "fd_filestat_get", "fd_write", "fd_seek"]
+        for x in DIRUSE:
+            h = new_hist(); h.open(abi, 3, "d0", wo.O_DIRECTORY, wo.R_READ); h.generic(abi, "fd_readdir", 4); h.generic(abi, x, 4)
+            out.append(("dir-listed", h))
+        for first in ("dir", "file"):
+            for x in DIRUSE:
+                for y in FILEUSE:
+                    h = new_hist()
+                    if first == "dir":
+                        h.open(abi, 3, "d0", wo.O_DIRECTORY, wo.R_READ); dn, fn = 4, 5
+                        h.generic(abi, "fd_readdir", dn)
+                        h.open(abi, 3, "f0")
+                    else:
+                        h.open(abi, 3, "f0"); h.open(abi, 3, "d0", wo.O_DIRECTORY, wo.R_READ); dn, fn = 5, 4
+                        h.generic(abi, y, fn)
+                        h.generic(abi, "fd_readdir", dn)
+                        h.open(abi, 3, "d0/g"); 
+                    h.generic(abi, y, fn); h.generic(abi, x, dn); h.generic(abi, y, fn)
+                    h.generic(abi, "fd_readdir", dn)
+                    h.call(abi, "fd_close", fn)
+                    h.generic(abi, x, dn); h.generic(abi, "fd_readdir", dn)
+                    h.open(abi, 3, "f0"); h.generic(abi, x, dn)
+                    h.call(abi, "fd_close", dn); h.generic(abi, x, dn); h.generic(abi, y, fn)
+                    out.append(("dir-interleaved", h))
+        # two listed directories and files opened in between
+        h = new_hist()
+        h.open(abi, 3, "d0", wo.O_DIRECTORY, wo.R_READ); h.generic(abi, "fd_readdir", 4)
+        h.open(abi, 3, "d0", wo.O_DIRECTORY, wo.R_READ); h.open(abi, 3, "f0"); h.generic(abi, "fd_readdir", 5)
+        h.open(abi, 3, "d0/g")
+        for n in (4, 5, 6, 7):
+            h.generic(abi, "fd_fdstat_get", n); h.generic(abi, "fd_filestat_get", n); h.generic(abi, "fd_read", n)
+        out.append(("dir-interleaved", h))
+        # fd_readdir after the directory was renamed / removed (before and after the first listing)
+        for when in ("before", "after"):
+            for how in ("path_remove_directory", "path_rename"):
+                h = new_hist(); h.raw("mkdir sb/d1")
+                h.open(abi, 3, "d1", wo.O_DIRECTORY, wo.R_READ)
+                if when == "after":
+                    h.generic(abi, "fd_readdir", 4)
+                p, l = h.path("d1")
+                if how == "path_rename":
+                    q, m = h.path("d2"); h.call(abi, "path_rename", 3, p, l, 3, q, m)
+                else:
+                    h.call(abi, "path_remove_directory", 3, p, l)
+                h.generic(abi, "fd_readdir", 4); h.generic(abi, "fd_fdstat_get", 4); h.generic(abi, "fd_filestat_get", 4)
+                h.open(abi, 3, "f0"); h.generic(abi, "fd_read", 5); h.generic(abi, "fd_readdir", 4)
+                h.call(abi, "fd_close", 4); h.generic(abi, "fd_read", 5)
+                out.append(("dir-moved", h))
         # prestat of the pre-opened directory
         for ln in (0, 1, 2, 3, 16):
             h = new_hist(); h.generic(abi, "fd_prestat_get", 3); h.call(abi, "fd_prestat_dir_name", 3, h.res(16), ln)
@@ -119,7 +171,9 @@ def random_history(rng):
         cand = list(range(0, length + 1)) + closed * 3 + [rng.choice(NEVER)]
         if r < 0.25:
             name = rng.choice(["a", "b", "f0", "d0", "d0/g", "nope/x", b"a\x00b", b"\x00"])
-            ofl = rng.choice([0, wo.O_CREAT, wo.O_CREAT | wo.O_EXCL, wo.O_TRUNC, wo.O_DIRECTORY])
+            ofl = rng.choice([0, wo.O_CREAT, wo.O_CREAT | wo.O_EXCL, wo.O_TRUNC, wo.O_DIRECTORY, wo.O_DIRECTORY])
+            if ofl == wo.O_DIRECTORY and rng.random() < 0.7:
+                name = "d0"
             dirfd = rng.choice([3, 3, 3] + cand)
             h.open(rng.choice(ABIS) if rng.random() < 0.2 else abi, dirfd, name, ofl, rng.choice([wo.RIGHTS_RW, wo.R_READ, wo.R_WRITE]))
             length += 1            # optimistic; only used to bias later choices
@@ -128,7 +182,7 @@ def random_history(rng):
             h.call(abi, "fd_close", n)
             closed.append(n)
         else:
-            call = rng.choice(CALLS)
+            call = rng.choice(CALLS + ["fd_readdir"] * 4 + ["fd_fdstat_get", "fd_filestat_get", "fd_read"] * 2)
             n = rng.choice(cand)
             h.generic(abi, call, n, fd2=rng.choice(cand) if rng.random() < 0.5 else None)
     return h
@@ -180,6 +234,13 @@ def judge_real(h, lines, end):
             break
         line = lines[i]
         parts = line.split()
+        for tok in wo.table_tokens(line):
+            kind = tok.split(":")[0]
+            verdicts.append((f"table-invariant:{kind}",
+                             {"stale": "a live table entry stores a native descriptor that is no longer open",
+                              "alias": "two live descriptors share one native open file",
+                              "retarget": "a descriptor denotes a different open file although it was never closed"}.get(kind, kind)
+                             + f" after `{h.lines[i]}` ({tok}) — descriptor-table invariant `native_fds_open_distinct` of Props/C13", i))
         errno = int(parts[1]) if parts[0] == "r" and parts[1].isdigit() else None
         stats.append((call, classes[0] if classes else "-", errno))
         if dead and errno is not None and errno != 8 and call not in wo.NOSYS_CALLS:
@@ -231,6 +292,10 @@ def compare(h, real, model):
             break
         a, b = wo.canon_line(rl[i]), wo.canon_line(ml[i])
         if b == "r unmodelled":      # the model reached a host call it does not model (listing, rename, lseek on a directory, …)
+            m = h.meta[i]
+            if m and m["call"] in ("path_rename", "path_unlink_file", "path_remove_directory", "path_create_directory",
+                                   "path_symlink") and a.split()[:2] == ["r", "0"]:
+                return None          # the real name space changed in a way the POSIX model does not follow: stop comparing
             continue
         if a != b:
             return f"line {i} `{h.lines[i]}`: real `{a}` model `{b}`"
@@ -255,7 +320,7 @@ def shrink(exe, d, h, key, budget=40):
             cands.append(c)
         if not cands:
             break
-        res = wo.run_histories(exe, "real", [c.lines for c in cands], d)
+        res = wo.run_histories(exe, "real", [c.lines for c in cands], d, tablecheck=True)
         nxt = None
         for c, r in zip(cands, res):
             v, _ = judge_real(c, r[0], r[1])
@@ -297,7 +362,7 @@ def run(tier):
         for _ in range(n_rand):
             tagged.append(("random", random_history(chk.rng)))
         hs = [h for _, h in tagged]
-        real = wo.run_histories(exe, "real", [h.lines for h in hs], d)
+        real = wo.run_histories(exe, "real", [h.lines for h in hs], d, tablecheck=True)
         model = wo.run_model(WASIDRIVER, [h.lines for h in hs]) if ok else None
         chk.coverage["rule"] = ("a case is one history (setup + ≤ 16 WASI calls) run on the real wasi.c under ASan/UBSan and on the Lean model; "
                                 "non-trivial = distinct (call-name sequence, result sequence); systematic part: every descriptor-taking call × "
@@ -362,7 +427,7 @@ def replay(path):
     with vlib.scratch("c13r-") as d:
         repo = vlib.copy_repo(os.path.join(d, "repo"))
         exe = wo.build(repo, d)
-        lines, end = wo.run_histories(exe, "real", [h.lines], d)[0]
+        lines, end = wo.run_histories(exe, "real", [h.lines], d, tablecheck=True)[0]
     for l, o in zip(h.lines, lines + ["<no answer: the process died here>"] * len(h.lines)):
         print(f"  {l}    ->  {o}")
     print(end)
